@@ -511,7 +511,54 @@ def check_fibers(case, rec):
     rec.nontrivial(partial)
 
 
+# ---------------------------------------------------------------- non-zero defaults: in-place vs value form
+@st.composite
+def nzd_cases(draw):
+    """1-level fibers with a non-zero default (0 is then an ordinary stored value).  What + and * mean for
+    absent elements of such fibers is not defined by the docstrings, but 'each in-place form leaves the fiber
+    with the same content its value-returning form would have produced' needs no further oracle: it is checked
+    for the forms that are self-consistent for such fibers (*= fiber, += scalar, *= scalar; f += g pads
+    differently from f + g there and is left out)."""
+    op = draw(st.sampled_from(["imul_fiber", "iadd_scalar", "imul_scalar"]))
+    d = draw(st.sampled_from([2, 7, -1]))
+    S = draw(st.integers(1, 7))
+    def fib():
+        cs = sorted(draw(st.sets(st.integers(0, S - 1), max_size=S)))
+        return [[c, draw(st.sampled_from([0, 1, d, 3, -2, 5]))] for c in cs]
+    return {"op": op, "default": d, "shape": S, "f": fib(), "g": fib(),
+            "s": draw(st.sampled_from([0, 2, -1, d, 3])), "owned": draw(st.booleans())}
+
+
+def check_nzd(case, rec):
+    import copy as _copy
+    from .. import build as _build
+    d, S = case["default"], case["shape"]
+    def mk(elems, owned=False):
+        return _build.leaf_fiber([c for c, _ in elems], [v for _, v in elems], shape=S, default=d, owned=owned)
+    f, g = mk(case["f"], case["owned"]), mk(case["g"])
+    f2 = _copy.deepcopy(f)
+    op = case["op"]
+    if op == "imul_fiber":
+        v = f * g
+        f2 *= g
+    elif op == "iadd_scalar":
+        v = f + case["s"]
+        f2 += case["s"]
+    else:
+        v = f * case["s"]
+        f2 *= case["s"]
+    dv = [Payload.get(v.getPayload(c)) for c in range(S)]
+    di = [Payload.get(f2.getPayload(c)) for c in range(S)]
+    if dv != di:
+        raise Violation("inplace-vs-value", f"{op} with default {d}: value form reads {dv} over the shape, in-place "
+                        f"form {di}; f={case['f']} g={case['g']} s={case['s']}")
+    rec.cls("nzd:" + op)
+    rec.cls("stored-zero", any(x == 0 for _, x in case["f"]))
+    rec.nontrivial(len(case["f"]) >= 2 and (op != "imul_fiber" or 0 < len(set(c for c, _ in case["f"]) & set(c for c, _ in case["g"])) < len(case["f"])))
+
+
 PARTS = [
+    Part("nonzero-default", nzd_cases(), check_nzd, n_quick=1200, n_thorough=6000),
     Part("matrix", matrix_cases(), check_matrix, n_quick=3000, n_thorough=20000, enumerate=enumerate_matrix,
          exhaustive_note=f"all {len(CELLS)} cells (operator x operand kinds) of the Payload / CoordPayload operator "
                          f"matrix, each with the fixed table of {len(TABLE_GEN)} value pairs ({len(TABLE_BIT)} for "
